@@ -2,6 +2,7 @@
 package c17
 
 import (
+	"sort"
 	"bytes"
 	"encoding/json"
 	"fmt"
@@ -603,5 +604,68 @@ func runBodies(c *core.Check, rounds int) {
 	}
 	if m := bad.Load(); m != nil {
 		c.Violation("concurrent-body-result-differs", m.(string), map[string]any{"kind": "bodies"})
+		return
+	}
+	// a REMAINING body (the result of PartialContent) shared by many goroutines: each applies a
+	// block schema and then an attribute schema to it; every one must see what a lone caller sees
+	first := &hcl.BodySchema{Attributes: []hcl.AttributeSchema{{Name: "name"}}}
+	blkS := &hcl.BodySchema{Blocks: []hcl.BlockHeaderSchema{{Type: "blk", LabelNames: []string{"l"}}}}
+	restS := &hcl.BodySchema{Attributes: []hcl.AttributeSchema{{Name: "all"}, {Name: "flat"}, {Name: "cond"}}}
+	project := func(remain hcl.Body) string {
+		c1, r1, d1 := remain.PartialContent(blkS)
+		c2, d2 := r1.Content(restS)
+		var parts []string
+		for _, b := range c1.Blocks {
+			parts = append(parts, fmt.Sprintf("%s%q", b.Type, b.Labels))
+		}
+		var names []string
+		for n := range c2.Attributes {
+			names = append(names, n)
+		}
+		sort.Strings(names)
+		return fmt.Sprintf("blocks=%v attrs=%v errs=%v/%v", parts, names, d1.HasErrors(), d2.HasErrors())
+	}
+	fresh := func(kind string) hcl.Body {
+		switch kind {
+		case "json":
+			f, _ := hcljson.Parse([]byte(jsrc), "b.json")
+			_, rem, _ := f.Body.PartialContent(first)
+			return rem
+		case "merged":
+			f1, _ := hclsyntax.ParseConfig([]byte(bodySrc), "b.hcl", hcl.InitialPos)
+			f2, _ := hcljson.Parse([]byte(`{"extra": 1}`), "c.json")
+			_, rem, _ := hcl.MergeBodies([]hcl.Body{f1.Body, f2.Body}).PartialContent(first)
+			return rem
+		}
+		f, _ := hclsyntax.ParseConfig([]byte(bodySrc), "b.hcl", hcl.InitialPos)
+		_, rem, _ := f.Body.PartialContent(first)
+		return rem
+	}
+	remRounds := rounds / 10
+	if remRounds < 10 {
+		remRounds = 10
+	}
+	for _, kind := range []string{"native", "json", "merged"} {
+		want := project(fresh(kind))
+		for r := 0; r < remRounds; r++ {
+			shared := fresh(kind)
+			got := make([]string, nG)
+			var wg sync.WaitGroup
+			for g := 0; g < nG; g++ {
+				wg.Add(1)
+				go func(g int) {
+					defer wg.Done()
+					got[g] = project(shared)
+				}(g)
+			}
+			wg.Wait()
+			c.Count("evaluations", nG)
+			for g := 0; g < nG; g++ {
+				if got[g] != want {
+					c.Violation("shared-remaining-body-differs/"+kind, fmt.Sprintf("%s remaining body shared by %d goroutines: goroutine %d sees %s; a lone caller sees %s", kind, nG, g, got[g], want), map[string]any{"kind": "remain"})
+					return
+				}
+			}
+		}
 	}
 }
